@@ -6,12 +6,12 @@ import ast
 import re
 
 from ..engine import rule
-from ..cxx_ir import CALL_KINDS, CTOR_KINDS
+from ..cxx_ir import CALL_KINDS, CTOR_KINDS, LOOP_KINDS
 from ..descriptors import arm_descriptors
 from ..cfg import cfg_of, const_eval
 from ..py_frontend import call_name, calls_under, walk, is_name, src
 from .common import (short, inst, calls_in, callee_func, member_path, enclosing_map, ancestors,
-                     thrown_type, local_inits, strip_casts)
+                     thrown_type, local_inits, strip_casts, kind_switches)
 
 # what the property statement says is compared, per kind
 REFERENCE = {
@@ -246,6 +246,33 @@ def w1(ctx):
             names = {member_path(strip_casts(x)) for x in dst.walk() if x.kind == 'DeclRefExpr'}
             if names & set(its):
                 writes.append(c)
+    # every child is re-placed: a child that keeps its *index* does not keep its *offset* when
+    # siblings of another size move, so the placing copy may not be skipped by a test on indices
+    cfg = cfg_of(f)
+    parent = enclosing_map(f.body)
+    ctx.require(writes, 'IsPrefix: no write into the working copy found')
+    for wi, c in enumerate(writes):
+        ls = [a for a in ancestors(c, parent) if a.kind in LOOP_KINDS]
+        if not ls:
+            continue
+        body = ls[0].kids[-1]
+        inside = {cfg.cnode_of(x) for x in body.walk() if cfg.cnode_of(x) is not None}
+        wn = cfg.cnode_of(c)
+        cands = {w for (v, w) in cfg.back_edges if v in inside}
+        heads = {w for w in cands if all(cfg.dominates(w, x) for x in cands)}
+        ctx.require(inside and heads and wn is not None, 'IsPrefix: re-ordering loop not recognised')
+
+        reach = cfg.reachable_from([min(inside)], None, {wn} | heads)
+        skips = sorted(v for v in reach if any(w in heads for (w, lab) in cfg.succ[v]))
+        guards = [cfg.nodes[v] for v in reach if cfg.nodes[v].kind == 'cond' and cfg.nodes[v].ast is not None
+                  and const_eval(cfg.nodes[v].ast) is None]
+        by_offsets = bool(guards) and all('offsets' in g.ast.text(6) for g in guards)
+        ctx.check('IsPrefix/reorder-places-every-child#%d' % wi, not skips or by_offsets,
+                  'IsPrefix: every entry of the index map is copied to its new offset',
+                  'IsPrefix: the placing copy is skipped when `%s`: a child that keeps its index '
+                  'still moves when the siblings before it have another size; the working copy keeps '
+                  'stale nodes (wrong False / InternalError)'
+                  % (guards[0].ast.text(4) if guards else '?'), c.loc)
     n = 0
     for v in f.body.find('VarDecl'):
         if not v.kids or v.kids[-1] is None:
@@ -355,6 +382,37 @@ def p4(ctx):
                   'position map built from its own key list',
                   'broadcast pairs dict children %s: keys of equal sets in a different order '
                   '(unsortable keys keep insertion order) get the wrong partner' % why, n.loc)
+    # ... and no dict x dict path gets round the keyed pairing: from the dict arms of the kind
+    # switch, the only recursive calls that can be reached are the keyed ones (a `break` into
+    # the positional tail shared by the sequence kinds pairs children by position)
+    from ..descriptors import kind_edge_filter
+    cfg = cfg_of(f)
+    sws = kind_switches(f)
+    ctx.require(len(sws) >= 1, 'BroadcastToCommonSuffixImpl: no kind switch')
+    subj = None
+    for k in sws[0].kids[:-1]:
+        if k is not None:
+            subj = member_path(strip_casts(k))
+    ctx.require(subj is not None and subj.endswith('.kind'), 'BroadcastToCommonSuffixImpl: switch subject not recognised')
+    parent = enclosing_map(f.body)
+    keyed_loops = set()
+    for n in idx_uses:
+        ls = [a for a in ancestors(n, parent) if a.kind in LOOP_KINDS]
+        if ls:
+            keyed_loops.add(id(ls[0]))
+    rec = [c for c in calls_in(f.body) if callee_func(prog, f, c) is not None and
+           callee_func(prog, f, c).qualname == f.qualname]
+    ctx.require(len(rec) >= 2, 'BroadcastToCommonSuffixImpl: %d recursive calls' % len(rec))
+    for kind in ('Dict', 'OrderedDict', 'DefaultDict'):
+        reach = cfg.reachable_from([cfg.entry.idx], kind_edge_filter(cfg, kind, subj))
+        pos = [c for c in rec if cfg.cnode_of(c) in reach and
+               not any(id(a) in keyed_loops for a in ancestors(c, parent) if a.kind in LOOP_KINDS)]
+        ctx.check('BroadcastToCommonSuffixImpl/%s/only-keyed-recursion' % kind, not pos,
+                  'broadcast: a %s node reaches only the recursive call inside the keyed loop' % kind,
+                  'broadcast: a %s node can reach the positional recursive call at %s without '
+                  'going through the key -> position map: children of equal key sets stored in a '
+                  'different order are paired with the wrong partner'
+                  % (kind, pos[0].loc if pos else '?'), pos[0].loc if pos else f.loc)
     g = prog.one('PyTreeSpec::IsPrefix')
     ginits = local_inits(g)
     emps = [c for c in calls_in(g.body, {'emplace'}) if
